@@ -35,16 +35,18 @@ RT_ONE = 1e-9
 
 
 def _plan(tier):
+    """curves are (k_1, SD); SD = 125 / 132.5 / 100 / 60 put the knee exactly on a class amplitude at level 1"""
     if tier == "quick":
-        return [dict(k1=(5.0, 3.0, 8.0), SD=(100.0,), edges=("regular", "irregular"), counts=(0.0, 1.0, 50.0),
+        return [dict(curves=((5.0, 100.0), (3.0, 125.0)), edges=("regular", "irregular"), counts=(0.0, 1.0, 5000.0),
                      forms=("histogram", "collective"), levels=(0.5, 1.0, 3.0), perms="rotations+reverse",
                      linear_on_first_curves=1)]
-    return [dict(k1=(3.0, 5.0, 8.0), SD=(80.0, 100.0), edges=("regular", "irregular"), counts=(0.0, 1.0, 50.0),
+    return [dict(curves=((5.0, 100.0), (3.0, 125.0), (8.0, 132.5), (3.0, 80.0), (5.0, 125.0), (8.0, 100.0)),
+                 edges=("regular", "irregular"), counts=(0.0, 1.0, 5000.0),
                  forms=("histogram", "collective", "histogram-with-mean"), levels=(0.5, 1.0, 1.6, 3.0), perms="all",
-                 linear_on_first_curves=99),
-            dict(k1=(3.0, 5.0), SD=(80.0,), edges=("regular5",), counts=(0.0, 1.0, 50.0),
+                 linear_on_first_curves=2),
+            dict(curves=((5.0, 100.0), (3.0, 60.0)), edges=("regular5",), counts=(0.0, 1.0, 50.0),
                  forms=("histogram", "collective"), levels=(0.5, 1.0, 1.6, 3.0), perms="rotations+reverse",
-                 linear_on_first_curves=99)]
+                 linear_on_first_curves=1)]
 
 
 def bounds(tier):
@@ -54,8 +56,10 @@ def bounds(tier):
         p["ND"] = 1e6
         p["k_2 entry of the curve given to the Gassner accessors"] = ["absent", "as the rule says"]
         p["class_limits(range)"] = {k: ALL_EDGES[k] for k in p["edges"]}
-        p["linearity clauses (additive / proportional / member order)"] = "on the first %d curve(s) of the lattice; rule order and Gassner clauses on all" % p.pop("linear_on_first_curves") if p["linear_on_first_curves"] < 99 else "on all curves"
-        p.pop("linear_on_first_curves", None)
+        nlin = p.pop("linear_on_first_curves")
+        p["curves(k_1, SD)"] = p.pop("curves")
+        p["linearity clauses (additive / proportional / member order)"] = "on all curves" if nlin >= 99 else \
+            "on the first %d curve(s); rule order, Gassner and effective damage sum clauses on all" % nlin
         p["splits"] = "all unordered splits of the members into two parts; counts split 1/4 + 3/4; counts x 3"
         out.append(p)
     return out
@@ -69,12 +73,12 @@ def shards(tier):
             vecs = [v for v in itertools.product(p["counts"], repeat=ncls) if any(v)]
             vecs.sort(key=lambda v: (sum(1 for x in v if x), v))          # simplest first
             for form in p["forms"]:
-                for ci, curve in enumerate([(k1, sd) for k1 in p["k1"] for sd in p["SD"]]):
+                for ci, curve in enumerate(p["curves"]):
                     linear = ci < p["linear_on_first_curves"]
                     for level in p["levels"]:
-                        for i in range(0, len(vecs), 128 if linear else 512):
+                        for i in range(0, len(vecs), 40 if linear else 512):
                             out.append({"edges": e, "form": form, "curve": curve, "level": level, "perms": p["perms"],
-                                        "linear": linear, "vectors": vecs[i:i + (128 if linear else 512)]})
+                                        "linear": linear, "vectors": vecs[i:i + (40 if linear else 512)]})
     return out
 
 
